@@ -1,6 +1,8 @@
 // Package c18: correspondence driver for C18 (the execution rate limit from `settings`).
 //
-// A case writes a v1 hook configuration with a `settings:` block, loads it with the real
+// Two kinds of cases.  Operator level (op.go): the real operator with settings in the
+// hooks' configurations, scripted executions that succeed or FAIL, and a count of what
+// starts.  Limiter level (this file): a case writes a v1 hook configuration with a `settings:` block, loads it with the real
 // Hook.LoadConfig (HookConfig.LoadAndValidate + CreateRateLimiter), and then drives the
 // real *rate.Limiter the hook got with ReserveN(t, 1) on a SYNTHETIC clock (time.Time
 // values chosen by the generator).  A second hook instance loaded from the same text is
@@ -22,6 +24,7 @@ import (
 	"github.com/flant/shell-operator/pkg/hook"
 
 	"verifharness/internal/core"
+	"verifharness/internal/opsim"
 )
 
 type Input struct {
@@ -34,6 +37,79 @@ type Input struct {
 	ProbeN      int     `json:"probe_n"`
 	BudgetNs    int64   `json:"budget_ns"`
 	Pattern     string  `json:"pattern"`
+	// operator-level case (op.go); nil = limiter-level case
+	Op *OpIn `json:"op,omitempty"`
+	// Seq is the list delta debugging may shorten (Spec.ShrinkKey): a mirror of Arrivals
+	// (limiter level) or of Op.Acts (operator level), written by Explicit into every recorded
+	// input; when present it wins over the list it mirrors.
+	Seq []json.RawMessage `json:"seq,omitempty"`
+}
+
+// MarshalJSON keeps operator-level inputs free of the limiter-level members.
+func (in Input) MarshalJSON() ([]byte, error) {
+	if in.Op != nil {
+		return json.Marshal(struct {
+			Op  *OpIn             `json:"op"`
+			Seq []json.RawMessage `json:"seq,omitempty"`
+		}{in.Op, in.Seq})
+	}
+	type plain Input
+	return json.Marshal(plain(in))
+}
+
+// normalize applies Seq (see Input).
+func normalize(in Input) Input {
+	if in.Seq == nil {
+		return in
+	}
+	if in.Op != nil {
+		op := *in.Op
+		op.Acts = nil
+		for _, raw := range in.Seq {
+			var a opsim.Action
+			if json.Unmarshal(raw, &a) == nil {
+				op.Acts = append(op.Acts, a)
+			}
+		}
+		op.Seed, op.Steps = 0, 0
+		if len(op.Acts) == 0 {
+			op.Acts = []opsim.Action{{Kind: "Boot"}}
+		}
+		in.Op = &op
+	} else {
+		in.Arrivals = nil
+		for _, raw := range in.Seq {
+			var a int64
+			if json.Unmarshal(raw, &a) == nil {
+				in.Arrivals = append(in.Arrivals, a)
+			}
+		}
+	}
+	in.Seq = nil
+	return in
+}
+
+// Explicit is what replay files and the shrinker see: the script that was really executed
+// instead of a seed, and Seq.
+func Explicit(in Input, obs *Obs) Input {
+	in = normalize(in)
+	if in.Op != nil {
+		op := *in.Op
+		if obs != nil && obs.Op != nil && len(obs.Op.Acts) > 0 {
+			op.Acts, op.Seed, op.Steps = obs.Op.Acts, 0, 0
+		}
+		in.Op = &op
+		for _, a := range op.Acts {
+			b, _ := json.Marshal(a)
+			in.Seq = append(in.Seq, b)
+		}
+		return in
+	}
+	for _, a := range in.Arrivals {
+		b, _ := json.Marshal(a)
+		in.Seq = append(in.Seq, b)
+	}
+	return in
 }
 
 type Obs struct {
@@ -44,6 +120,7 @@ type Obs struct {
 	Acts    []*int64 `json:"acts"` // nil entry = reservation not OK
 	Probe   []bool   `json:"probe"`
 	WallNs  int64    `json:"wall_ns"`
+	Op      *OpObs   `json:"op,omitempty"`
 }
 
 var base = time.Unix(1_700_000_000, 0)
@@ -56,6 +133,11 @@ func load(cfg string) (*hook.Hook, error) {
 
 func Run(in Input) Obs {
 	var o Obs
+	in = normalize(in)
+	if in.Op != nil {
+		o.Op = runOp(*in.Op)
+		return o
+	}
 	h, err := load(in.Config)
 	if err != nil {
 		msg := err.Error()
@@ -134,6 +216,14 @@ func coqActs(xs []*int64) string {
 }
 
 func Render(in Input, obs *Obs, crash string) core.Case {
+	in = normalize(in)
+	if in.Op != nil {
+		var oo *OpObs
+		if obs != nil {
+			oo = obs.Op
+		}
+		return renderOp(*in.Op, oo, crash)
+	}
 	var o Obs
 	if obs != nil {
 		o = *obs
@@ -149,12 +239,13 @@ func Render(in Input, obs *Obs, crash string) core.Case {
 		// a crash is reported as a direct finding by the driver; make the case a mismatch as well
 		coqObs = "(mkObs true true (zn 7) [] [] (zp 0))"
 	}
-	c.Coq = fmt.Sprintf("(mkCase %s %s %d %s\n  %s)", raw, coqInts(in.Arrivals), in.ProbeN, coqZ(in.BudgetNs), coqObs)
+	c.Coq = fmt.Sprintf("(CLim (mkCase %s %s %d %s\n  %s))", raw, coqInts(in.Arrivals), in.ProbeN, coqZ(in.BudgetNs), coqObs)
 	c.JSON = o
 	b, _ := json.Marshal(in.Arrivals)
 	c.Key = fmt.Sprintf("%v|%s|%s|%s|%d", in.HasSettings, coqOZ(in.IntervalNs), coqOZ(in.Burst), b, in.ProbeN)
 
 	// tags
+	c.Tags = append(c.Tags, "class:limiter")
 	switch {
 	case !in.HasSettings:
 		c.Tags = append(c.Tags, "cfg:no-settings")
@@ -527,13 +618,20 @@ func Gen(r *core.Rng, tier string) ([]core.In[Input], bool) {
 	for _, c := range Corpus() {
 		ins = append(ins, core.In[Input]{Input: c, Stream: "corpus"})
 	}
-	n, maxN := 400, 40
+	for _, op := range OpCorpus() {
+		op := op
+		ins = append(ins, core.In[Input]{Input: Input{Op: &op}, Stream: "corpus"})
+	}
+	// operator-level scenarios (their own PRNG stream, so that the limiter-level stream is the
+	// one it always was)
+	n, maxN, nOp, maxSteps := 400, 40, 90, 16
 	switch tier {
 	case "thorough":
-		n, maxN = 20000, 60
+		n, maxN, nOp, maxSteps = 20000, 60, 1500, 24
 	case "search":
-		n, maxN = 3000, 40
+		n, maxN, nOp, maxSteps = 3000, 40, 300, 20
 	}
+	var lim, ops []core.In[Input]
 	for i := 0; i < n; i++ {
 		in := genCase(r, maxN)
 		stream := "random"
@@ -544,13 +642,33 @@ func Gen(r *core.Rng, tier string) ([]core.In[Input], bool) {
 		} else if in.Pattern == "unsorted" {
 			stream = "unsorted-clock"
 		}
-		ins = append(ins, core.In[Input]{Input: in, Stream: stream})
+		lim = append(lim, core.In[Input]{Input: in, Stream: stream})
 	}
+	ro := r.Fork()
+	for i := 0; i < nOp; i++ {
+		op := genOp(ro, maxSteps)
+		ops = append(ops, core.In[Input]{Input: Input{Op: &op}, Stream: "operator"})
+	}
+	// interleave (the driver hands contiguous chunks to its workers; an operator scenario
+	// costs ~100 ms, a limiter case well under 1 ms)
+	every := 1
+	if nOp > 0 && n/nOp > 1 {
+		every = n / nOp
+	}
+	k := 0
+	for i, c := range lim {
+		ins = append(ins, c)
+		if (i+1)%every == 0 && k < len(ops) {
+			ins = append(ins, ops[k])
+			k++
+		}
+	}
+	ins = append(ins, ops[k:]...)
 	return ins, false
 }
 
 var Driver = core.Driver[Input, Obs]{
-	Spec: core.Spec{Property: "C18", Imports: []string{"C18_Model", "C18_Spec", "C18_Corr"}, Corr: "C18_Corr", Triggers: nil, ShrinkKey: "arrivals",
-		Rule: "a v1 hook configuration with a generated settings block (I as a Go duration string, B an integer; keys absent / 0 / negative / out of int32 at a low rate; YAML and JSON renderings; with onStartup, schedule or kubernetes bindings) is loaded by the real Hook.LoadConfig; the *rate.Limiter it builds is driven with ReserveN(t,1) on a synthetic clock (patterns: burst, steady, bursts+pauses, random, long-pause, jitter, unsorted) and, for unlimited hooks and I >= 10s, Hook.RateLimitWait is probed B+2 times with a 50 ms deadline on the wall clock; non-trivial = accepted configuration, >= 3 requests and (limited => at least one request delayed); distinct = distinct (settings, arrivals, probe size)"},
-	Gen: Gen, Run: Run, Render: Render, PerShard: 1000, Workers: 8, CaseTimout: 10 * time.Second,
+	Spec: core.Spec{Property: "C18", Imports: []string{"C18_Model", "C18_Spec", "C18_Corr"}, Corr: "C18_Corr", Triggers: nil, ShrinkKey: "seq",
+		Rule: "OPERATOR LEVEL (tag class:operator): the real operator in-process on a fake cluster with 1-3 v1 hooks, each with settings (I >= 30 s, B 1..4) or without, onStartup / schedule / kubernetes bindings in main or named queues shared between hooks or not; a script of Boot / Tick / KubeEv / Finish ok / Finish FAIL (30-75% of the finishes; allowFailure on some bindings) chosen from the observable state; the queues' back-off is 0-3 ms (TaskQueue.ExponentialBackoffFn); after every action queues, open executions, unlocked monitors and the queues waiting in Hook.RateLimitWait (positively observed through Limiter.Tokens()) are compared with the model, every execution start is recorded with its measured instant and P (window bound per hook with settings; no waiting for hooks without) is evaluated on them; non-trivial = a limited hook, >= 4 actions of >= 2 kinds, >= 2 executions and a worker seen waiting in the limiter; distinct = distinct (hooks, settings, script).  LIMITER LEVEL (tag class:limiter): a v1 hook configuration with a generated settings block (I as a Go duration string, B an integer; keys absent / 0 / negative / out of int32 at a low rate; YAML and JSON renderings; with onStartup, schedule or kubernetes bindings) is loaded by the real Hook.LoadConfig; the *rate.Limiter it builds is driven with ReserveN(t,1) on a synthetic clock (patterns: burst, steady, bursts+pauses, random, long-pause, jitter, unsorted) and, for unlimited hooks and I >= 10s, Hook.RateLimitWait is probed B+2 times with a 50 ms deadline on the wall clock; non-trivial = accepted configuration, >= 3 requests and (limited => at least one request delayed); distinct = distinct (settings, arrivals, probe size)"},
+	Gen: Gen, Run: Run, Render: Render, Explicit: Explicit, PerShard: 130, Workers: 8, CaseTimout: 20 * time.Second,
 }
